@@ -12,6 +12,7 @@ import (
 	"path/filepath"
 	"syscall"
 	"testing"
+	"time"
 
 	vs "github.com/cloudwego/netpoll/internal/verifsched"
 	"pgregory.net/rapid"
@@ -25,6 +26,9 @@ type srvClient struct {
 type srvScn struct {
 	Connect bool        `json:"connect"` // OnConnect configured
 	Clients []srvClient `json:"clients"`
+	// Shutdown: a user goroutine calls the server's Close (EventLoop.Shutdown) at a scheduler-chosen moment
+	// while the clients connect, write and close
+	Shutdown bool `json:"shutdown,omitempty"`
 }
 
 type srvOutcome struct {
@@ -38,6 +42,9 @@ type srvOutcome struct {
 	missing  int
 	noPrep   int
 	accepted int
+	shutRet  bool  // Close returned
+	shutErr  error // what it returned
+	active   int   // accepted connections still active at quiescence
 }
 
 var srvSeq int
@@ -89,6 +96,10 @@ func runSrv(t *rapid.T, s srvScn, replay []vs.Step) *srvOutcome {
 			w.fds[fd] = true
 			vs.Yield(-100)
 			if err := syscall.Connect(fd, &syscall.SockaddrUnix{Name: path}); err != nil {
+				if s.Shutdown {
+					w.ev("client-refused") // the listener is gone already
+					return
+				}
 				vInfra("connect: %v", err)
 			}
 			w.ev("client-connected")
@@ -103,10 +114,30 @@ func runSrv(t *rapid.T, s srvScn, replay []vs.Step) *srvOutcome {
 			}
 		})
 	}
+	if s.Shutdown {
+		w.s.Go("shutdown", false, func() {
+			vs.Yield(-102)
+			w.ev("shutdown+")
+			o.shutErr = srv.Close(context.Background())
+			o.shutRet = true
+			w.ev("shutdown-")
+		})
+	}
 	parked, livelock := w.run(200000)
+	// Close polls the connections every 50 ms while one of them is busy (a real timer): let real time pass
+	// while it is parked there and go on, the world is quiescent otherwise
+	for i := 0; i < 8 && s.Shutdown && !o.shutRet && !livelock; i++ {
+		time.Sleep(60 * time.Millisecond)
+		parked, livelock = w.run(200000)
+	}
 	o.livelock = livelock
 	for _, a := range parked {
 		o.parked = append(o.parked, a.Name)
+	}
+	for _, c := range o.prepared {
+		if c.IsActive() {
+			o.active++
+		}
 	}
 	tracked := map[*connection]bool{}
 	srv.connections.Range(func(k, v interface{}) bool {
@@ -144,6 +175,15 @@ func judgeSrv(s srvScn, o *srvOutcome) (sig, msg string) {
 	if o.missing > 0 {
 		return "active-not-tracked", fmt.Sprintf("%d active accepted connection(s) are not tracked by the server | events: %s", o.missing, logs)
 	}
+	if s.Shutdown {
+		if !o.shutRet {
+			return "shutdown-hang", "the server's Close did not return although no handler blocks | events: " + logs
+		}
+		if o.shutErr == nil && o.active > 0 {
+			return "nil-with-active", fmt.Sprintf("Shutdown returned nil, %d accepted connection(s) are still open and served | events: %s", o.active, logs)
+		}
+		return "", ""
+	}
 	if o.accepted != len(s.Clients) {
 		return "not-accepted", fmt.Sprintf("%d clients connected, %d connections went through OnPrepare | events: %s", len(s.Clients), o.accepted, logs)
 	}
@@ -171,7 +211,7 @@ func TestVerifC13(t *testing.T) {
 		return
 	}
 	rapid.Check(t, func(t *rapid.T) {
-		s := srvScn{Connect: rapid.Bool().Draw(t, "connect")}
+		s := srvScn{Connect: rapid.Bool().Draw(t, "connect"), Shutdown: rapid.IntRange(0, 2).Draw(t, "shutdown") == 0}
 		for i, n := 0, rapid.IntRange(1, 3).Draw(t, "clients"); i < n; i++ {
 			s.Clients = append(s.Clients, srvClient{Send: rapid.SampledFrom([]int{0, 0, 1, 20}).Draw(t, "send"), Close: rapid.IntRange(0, 3).Draw(t, "close") > 0})
 		}
@@ -200,6 +240,16 @@ func TestVerifC13(t *testing.T) {
 			for _, b := range evs {
 				if b.Name == "prepare" && abs(a.Step-b.Step) <= 25 {
 					racing = true
+				}
+			}
+		}
+		if s.Shutdown {
+			st.class("shutdown-during-accepts")
+			for _, a := range evs {
+				for _, b := range evs {
+					if a.Name == "shutdown+" && b.Name == "prepare" && abs(a.Step-b.Step) <= 40 {
+						racing = true
+					}
 				}
 			}
 		}
